@@ -206,4 +206,5 @@ func main() {
 	genStrFns(repo, out)
 	genArchFns(repo, out)
 	genBoolFns(repo, out)
+	genPathFns(repo, out)
 }
